@@ -4428,6 +4428,21 @@ class NetCDFWrite(IOWrite):
             for attr, v in force_global.items():
                 g["netcdf"].setncattr(attr, v)
 
+        if g["post_dry_run"]:
+            # The global attributes of the file are not changed when
+            # appending, so a property may only be left off the new
+            # variables if the file already holds it, with the same
+            # value, as a global attribute.
+            nc = g["netcdf"]
+            for attr in tuple(global_attributes):
+                if attr not in nc.ncattrs() or not (
+                    self.implementation.equal_properties(
+                        nc.getncattr(attr),
+                        self.implementation.get_property(f0, attr),
+                    )
+                ):
+                    global_attributes.remove(attr)
+
         g["global_attributes"] = global_attributes
 
     def file_close(self, filename):
